@@ -347,6 +347,110 @@ theorem lex_src (f : F) (hw : WF f = true) : LexesTo (src (mathTree f)) (toks f)
     exact (cons_char (c := 38) (cat := 4) (by decide +kernel) (by simp) (blank.append (ih hw))).cast
       (by simp [mathTree, src, fixArg]) (by simp [toks])
 
+/-! ## what the author writes (`Spec.render`) -/
+
+theorem stop_91 : Stop 91 := stop_of_code (Or.inl (by decide +kernel))
+
+theorem lex_wrapR {a : F} {br : Bool} (h : LexesTo (render a) (toks a)) :
+    LexesTo (wrapR br (render a)) (wrapT br (toks a)) := by
+  cases br with
+  | false => simpa [wrapR, wrapT] using h
+  | true => exact (lex_braced h).cast (by simp [wrapR]) (by simp [wrapT])
+
+theorem wrapR_headed {a : F} {br : Bool} (hw : WF a = true) (hs : (br || isSingle a) = true) :
+    Headed (wrapR br (render a)) := by
+  cases br with
+  | true => exact ⟨123, _, rfl, headOK_123⟩
+  | false =>
+    simp only [Bool.false_or] at hs
+    match a, hs, hw with
+    | .ch c .nil, _, hw =>
+      simp only [WF, Bool.and_true, List.contains_eq_mem, decide_eq_true_eq] at hw
+      exact ⟨c, [], rfl, headOK_mathChar hw⟩
+    | .sym n .nil, _, _ => exact ⟨92, _, rfl, headOK_92⟩
+    | .csym c .nil, _, _ => exact ⟨92, _, rfl, headOK_92⟩
+
+/-- `\name␣` followed by anything: one control word (the blank `render` writes after every control word) -/
+theorem lex_cw_blank {n : List Nat} (hn : isName n = true) {s : List Nat} {T : List Tok} (h : LexesTo s T) :
+    LexesTo (92 :: n ++ 32 :: s) (.cs n :: T) := by
+  obtain ⟨l, w, rfl, hl, hw, _⟩ := name_split hn
+  exact cword hl hw stop_32 ((blank.append h).cast (by simp) (by simp))
+
+/-- the formula as written lexes (blanks aside) to the formula's tokens: `toks` is the author's token sequence -/
+theorem lex_render (f : F) (hw : WF f = true) : LexesTo (render f) (toks f) := by
+  induction f with
+  | nil => exact LexesTo.nil
+  | ch c r ih =>
+    simp only [WF, Bool.and_eq_true, List.contains_eq_mem, decide_eq_true_eq] at hw
+    exact (cons_char (mathChars_code c hw.1) (catOf_mem c) (ih hw.2)).cast (by simp [render]) (by simp [toks, chTok])
+  | sp r ih =>
+    simp only [WF] at hw
+    exact (blank.append (ih hw)).cast (by simp [render]) (by simp [toks])
+  | sym n r ih =>
+    simp only [WF, Bool.and_eq_true] at hw
+    exact (lex_cw_blank hw.1 (ih hw.2)).cast (by simp [render]) (by simp [toks])
+  | csym c r ih =>
+    simp only [WF, Bool.and_eq_true, List.contains_eq_mem, decide_eq_true_eq] at hw
+    exact (csymbol (csymChars_ok c hw.1) (ih hw.2)).cast (by simp [render]) (by simp [toks])
+  | grp b r ihb ihr =>
+    simp only [WF, Bool.and_eq_true] at hw
+    exact ((lex_braced (ihb hw.1)).append (ihr hw.2)).cast (by simp [render]) (by simp [toks])
+  | sup br a r iha ihr =>
+    simp only [WF, Bool.and_eq_true] at hw
+    obtain ⟨⟨hwa, hs⟩, hwr⟩ := hw
+    have hA := lex_wrapR (br := br) (iha hwa)
+    obtain ⟨d, s', hds, hd⟩ := wrapR_headed hwa hs
+    have hh : LexesTo (94 :: wrapR br (render a)) (.ch 7 94 :: wrapT br (toks a)) := by
+      rw [hds] at hA ⊢; exact hat hd.2 hA
+    exact (hh.append (ihr hwr)).cast (by simp [render]) (by simp [toks])
+  | sub br a r iha ihr =>
+    simp only [WF, Bool.and_eq_true] at hw
+    obtain ⟨⟨hwa, hs⟩, hwr⟩ := hw
+    have hh : LexesTo (95 :: wrapR br (render a)) (.ch 8 95 :: wrapT br (toks a)) :=
+      cons_char (c := 95) (cat := 8) (by decide +kernel) (by simp) (lex_wrapR (br := br) (iha hwa))
+    exact (hh.append (ihr hwr)).cast (by simp [render]) (by simp [toks])
+  | cmd1 n br a r iha ihr =>
+    simp only [WF, Bool.and_eq_true] at hw
+    obtain ⟨⟨⟨hn, hwa⟩, hs⟩, hwr⟩ := hw
+    exact (lex_cw_blank hn ((lex_wrapR (br := br) (iha hwa)).append (ihr hwr))).cast (by simp [render]) (by simp [toks])
+  | cmd2 n b1 a1 b2 a2 r ih1 ih2 ihr =>
+    simp only [WF, Bool.and_eq_true] at hw
+    obtain ⟨⟨⟨⟨⟨hn, hw1⟩, hs1⟩, hw2⟩, hs2⟩, hwr⟩ := hw
+    exact (lex_cw_blank hn (((lex_wrapR (br := b1) (ih1 hw1)).append (lex_wrapR (br := b2) (ih2 hw2))).append (ihr hwr))).cast
+      (by simp [render]) (by simp [toks])
+  | root o br a r iho iha ihr =>
+    simp only [WF, Bool.and_eq_true] at hw
+    obtain ⟨⟨⟨hwo, hwa⟩, hs⟩, hwr⟩ := hw
+    have h91 : (91 : Nat) ∈ mathChars := by decide +kernel
+    have h93 : (93 : Nat) ∈ mathChars := by decide +kernel
+    have htail : LexesTo (91 :: (render o ++ 93 :: (wrapR br (render a) ++ render r)))
+        (chTok 91 :: (toks o ++ chTok 93 :: (wrapT br (toks a) ++ toks r))) :=
+      cons_char (mathChars_code 91 h91) (catOf_mem 91)
+        ((iho hwo).append (cons_char (mathChars_code 93 h93) (catOf_mem 93)
+          ((lex_wrapR (br := br) (iha hwa)).append (ihr hwr))))
+    have hl3 : ∀ c ∈ [113, 114, 116], whichCode defaultCats c = 11 := by decide +kernel
+    have hall : LexesTo (92 :: (115 :: [113, 114, 116]) ++ (91 :: (render o ++ 93 :: (wrapR br (render a) ++ render r))))
+        (.cs (115 :: [113, 114, 116]) :: _) := cword (by decide +kernel) hl3 stop_91 htail
+    exact hall.cast (by simp [render, strSqrt]) (by simp [toks, strSqrt, chTok])
+  | math b r ihb ihr =>
+    simp only [WF, Bool.and_eq_true, Bool.not_eq_true'] at hw
+    obtain ⟨⟨hwb, _⟩, hwr⟩ := hw
+    have h36 : LexesTo [36] [Tok.ch 3 36] := char (c := 36) (cat := 3) (by decide +kernel) (by simp)
+    exact ((cons_char (c := 36) (cat := 3) (by decide +kernel) (by simp) ((ihb hwb).append h36)).append (ihr hwr)).cast
+      (by simp [render]) (by simp [toks])
+  | arr spec b r ihb ihr =>
+    simp only [WF, Bool.and_eq_true, Bool.not_eq_true'] at hw
+    obtain ⟨⟨⟨hsp, hwb⟩, _⟩, hwr⟩ := hw
+    have hspec : ∀ c ∈ spec, c ∈ mathChars := by
+      intro c hc; have := List.all_eq_true.mp hsp c hc; simpa using this
+    have he := lex_env strArray strArray_chars (lex_braced (lex_chars spec hspec)) (ihb hwb)
+    exact (he.append (ihr hwr)).cast
+      (by simp [render, PlasVerif.Model.MathSource.strBegin, PlasVerif.Model.MathSource.strEnd,
+        PlasVerif.Spec.MathFormula.strBegin, PlasVerif.Spec.MathFormula.strEnd]) (by simp [toks])
+  | amp r ih =>
+    simp only [WF] at hw
+    exact (cons_char (c := 38) (cat := 4) (by decide +kernel) (by simp) (ih hw)).cast (by simp [render]) (by simp [toks])
+
 theorem lexS_nil (st : St) (p : Bool) : lexS st p [] = [] := by
   simp [lexS, tok_eof defaultCats st p [] (nextChar_nil _), stripBlanks]
 
